@@ -7,9 +7,15 @@ use std::collections::HashMap;
 
 /// C07 + C08 clauses on one observed list
 pub fn check_list(env: &Env, rep: &mut Report, opts: &Opts, user_ac: &HashMap<String, String>, text: &str, o: &Obs, all_prefixes_typed: bool) {
+    check_list_h(env, rep, opts, user_ac, text, o, all_prefixes_typed, &[])
+}
+
+/// … `hist`: the recorded events of the context (its route, an earlier word and how it ended, the keys of the text): the replay
+pub fn check_list_h(env: &Env, rep: &mut Report, opts: &Opts, user_ac: &HashMap<String, String>, text: &str, o: &Obs, all_prefixes_typed: bool, hist: &[String]) {
     let d = &env.data;
     let cands = match o { Obs::Full { cands, .. } => cands, Obs::Panic => { rep.violation("C01", "panic", format!("typed {:?}", text), json!({"text": text, "opts": opts.bits_str()})); return; } _ => return };
-    let ctx = json!({"stream": "c07", "layout": PHONETIC, "opts": opts.bits_str(), "text": text, "observed": cands, "user_autocorrect": user_ac});
+    let mut ctx = json!({"stream": "c07", "layout": PHONETIC, "opts": opts.bits_str(), "text": text, "observed": cands, "user_autocorrect": user_ac});
+    if !hist.is_empty() { ctx["events"] = json!(hist); }
     let (cp, w, cr) = wrapping(d, opts, text);
     let cl = classify(d, user_ac, &w);
     let spec: HashMap<&str, &Class> = cl.items.iter().map(|(t, c)| (t.as_str(), c)).collect();
@@ -158,18 +164,25 @@ pub fn run(env: &Env) -> Report {
         if with_ac { std::fs::write(user_dir(&xdg).join("autocorrect.json"), serde_json::to_string(&uac).unwrap()).unwrap(); }
         let mut t = env.trace(&format!("c07.{}", ui));
         t.line(&format!("case c07-{}", ui));
-        let mut s = Sess::new(&mut t, &env.data, "c", PHONETIC, opts, &xdg).expect("context");
+        // the context is reached by one of four routes (directly / as a fixed-layout context / with other options, then update_engine)
+        let mut s = Sess::new_routed(&mut t, &env.data, "c", PHONETIC, opts, &xdg, ui).expect("context");
         let mut rng = Rng::new(seed.wrapping_mul(31337) ^ (ui as u64) << 12);
-        let mut run_text = |s: &mut Sess, t: &mut Trace, rep: &mut Report, txt: &str| {
+        let earlier = ascii_keys("bon");
+        let mut nth = 0usize;
+        let mut run_text_ua = |s: &mut Sess, t: &mut Trace, rep: &mut Report, txt: &str, uac: &HashMap<String, String>| {
+            // every fourth text comes after an earlier word that ended by finish / ctrl-backspace / backspaces / a commit
+            nth += 1; s.clear_events();
+            if nth % 4 == 0 { prelude(s, t, 1 + (nth / 4) % 4, &earlier); }
             // every prefix is observed and checked: prefixes are inputs too
             let mut pre = String::new();
             for c in txt.chars() {
                 pre.push(c);
                 let o = s.key(t, code_for_char(c).unwrap(), 0, 0);
-                check_list(env, rep, &opts, &uac, &pre, &o, true);
+                check_list_h(env, rep, &opts, uac, &pre, &o, true, &s.events);
                 if o == Obs::Panic { return; }
             }
-            s.finish(t);
+            // … and ends itself in one of those ways
+            match nth % 5 { 1 => { s.backspace(t, true); } 2 => { if let Obs::Full { sel, cands, .. } = &s.last { if *sel < cands.len() { let i = *sel; s.commit(t, i); } else { s.finish(t); } } else { s.finish(t); } } _ => { s.finish(t); } }
         };
         match kind {
             Kind::Short(g, groups) => {
@@ -186,15 +199,15 @@ pub fn run(env: &Env) -> Report {
                     s.finish(&mut t);
                 }
             }
-            Kind::AcKeys(g, groups) => { for (i, k) in pools.ac_keys.iter().enumerate() { if i % groups == *g { run_text(&mut s, &mut t, &mut rep, k); } } }
+            Kind::AcKeys(g, groups) => { for (i, k) in pools.ac_keys.iter().enumerate() { if i % groups == *g { run_text_ua(&mut s, &mut t, &mut rep, k, &uac); } } }
             Kind::Emoji(g, groups) => {
-                for (i, k) in pools.emoji_names.iter().chain(pools.emoticons.iter()).enumerate() { if i % groups == *g { run_text(&mut s, &mut t, &mut rep, k); } }
+                for (i, k) in pools.emoji_names.iter().chain(pools.emoticons.iter()).enumerate() { if i % groups == *g { run_text_ua(&mut s, &mut t, &mut rep, k, &uac); } }
             }
             Kind::Guided(_) => {
                 for _ in 0..(if env.quick() { 25 } else { 80 }) {
                     let w = pools.word(&mut rng);
                     let txt = match rng.below(6) { 0 => format!("({})", w), 1 => format!("\"{}\"", w), 2 => format!("{}.", w), 3 => format!("'{}", w), _ => w };
-                    if txt.chars().all(crate::code_ok) { run_text(&mut s, &mut t, &mut rep, &txt); }
+                    if txt.chars().all(crate::code_ok) { run_text_ua(&mut s, &mut t, &mut rep, &txt, &uac); }
                 }
             }
             Kind::Suffix(_) => {
@@ -202,7 +215,7 @@ pub fn run(env: &Env) -> Report {
                     let base = pools.word(&mut rng);
                     let sfx = rng.pick(&pools.suffixes).clone();
                     let txt = format!("{}{}", base, sfx);
-                    if txt.chars().all(crate::code_ok) && txt.chars().count() < 24 { run_text(&mut s, &mut t, &mut rep, &txt); }
+                    if txt.chars().all(crate::code_ok) && txt.chars().count() < 24 { run_text_ua(&mut s, &mut t, &mut rep, &txt, &uac); }
                 }
             }
             Kind::AllSuffixes(g, groups) => {
@@ -211,7 +224,7 @@ pub fn run(env: &Env) -> Report {
                     if i % groups != *g { continue; }
                     let base = bases[(i / groups + seed as usize) % bases.len()];
                     let txt = format!("{}{}", base, sk);
-                    if txt.chars().all(crate::code_ok) { run_text(&mut s, &mut t, &mut rep, &txt); rep.count("suffix-key-covered"); }
+                    if txt.chars().all(crate::code_ok) { run_text_ua(&mut s, &mut t, &mut rep, &txt, &uac); rep.count("suffix-key-covered"); }
                 }
             }
             Kind::JoinClasses(g, groups) => {
@@ -227,7 +240,7 @@ pub fn run(env: &Env) -> Report {
                     for (cand, _) in &classify(&env.data, &uac, base).items { if let Some(l) = cand.chars().last() { rep.count(&format!("join-base-final-U+{:04X}", l as u32)); } }
                     for (_, sk) in &firsts {
                         let txt = format!("{}{}", base, sk);
-                        if txt.chars().all(crate::code_ok) { run_text(&mut s, &mut t, &mut rep, &txt); rep.count("join-class-text"); }
+                        if txt.chars().all(crate::code_ok) { run_text_ua(&mut s, &mut t, &mut rep, &txt, &uac); rep.count("join-class-text"); }
                     }
                 }
             }
@@ -235,10 +248,25 @@ pub fn run(env: &Env) -> Report {
                 let mut ks: Vec<&String> = uac.keys().collect(); ks.sort();
                 for key in ks {
                     if !key.chars().all(crate::code_ok) || key.is_empty() { continue; }
-                    run_text(&mut s, &mut t, &mut rep, key); rep.count("user-entry-over-bundled-typed");
-                    for sk in ["e", "er", "ke", "gulo"] { let txt = format!("{}{}", key, sk); if txt.chars().count() < 24 { run_text(&mut s, &mut t, &mut rep, &txt); } }
-                    let txt = format!("({}).", key); run_text(&mut s, &mut t, &mut rep, &txt);
+                    run_text_ua(&mut s, &mut t, &mut rep, key, &uac); rep.count("user-entry-over-bundled-typed");
+                    for sk in ["e", "er", "ke", "gulo"] { let txt = format!("{}{}", key, sk); if txt.chars().count() < 24 { run_text_ua(&mut s, &mut t, &mut rep, &txt, &uac); } }
+                    let txt = format!("({}).", key); run_text_ua(&mut s, &mut t, &mut rep, &txt, &uac);
                 }
+                // the user's file is EDITED (half of the entries change their value, the other half go away), then it is REMOVED: after
+                // the next update_engine the list follows the file as it is now — also for the words typed before (memoised lists)
+                let acp = user_dir(&xdg).join("autocorrect.json");
+                let mut ks: Vec<String> = uac.keys().filter(|k| !k.is_empty() && k.chars().all(crate::code_ok)).cloned().collect(); ks.sort();
+                let mut edited: HashMap<String, String> = HashMap::new();
+                for (i, k) in ks.iter().enumerate() { if i % 2 == 0 { edited.insert(k.clone(), "notun".into()); } }
+                std::fs::write(&acp, serde_json::to_string(&edited).unwrap()).unwrap();
+                let later = std::time::SystemTime::now() + std::time::Duration::from_secs(3600);
+                if let Ok(f) = std::fs::OpenOptions::new().write(true).open(&acp) { let _ = f.set_modified(later); }
+                s.update(&mut t, PHONETIC, opts);
+                for key in ks.iter().take(8) { run_text_ua(&mut s, &mut t, &mut rep, key, &edited); let txt = format!("{}er", key); run_text_ua(&mut s, &mut t, &mut rep, &txt, &edited); rep.count("user-entry-after-edit-typed"); }
+                let _ = std::fs::remove_file(&acp);
+                s.update(&mut t, PHONETIC, opts);
+                let none: HashMap<String, String> = HashMap::new();
+                for key in ks.iter().take(8) { run_text_ua(&mut s, &mut t, &mut rep, key, &none); let txt = format!("{}er", key); run_text_ua(&mut s, &mut t, &mut rep, &txt, &none); rep.count("user-entry-after-removal-typed"); }
             }
             Kind::Long => {
                 // long-distance probes: repeated optional-vowel letters (rank arithmetic far from the dictionary)
